@@ -45,7 +45,10 @@ impl Decoder for WithLengthBytesCodec {
         } else {
             let mut bytes = src.as_ref();
             let len = bytes.get_u64() as usize;
-            if src.remaining() >= LEN_SIZE + len {
+            let required = LEN_SIZE
+                .checked_add(len)
+                .ok_or_else(|| std::io::Error::from(std::io::ErrorKind::InvalidData))?;
+            if src.remaining() >= required {
                 src.advance(LEN_SIZE);
                 Ok(Some(src.split_to(len)))
             } else {
